@@ -51,6 +51,7 @@ type c10 struct {
 	nEst  int
 	sweep bool
 	nRep  int
+	taken bool
 }
 
 func c10Spec(tier, scenario string) seqx.Spec {
@@ -133,6 +134,9 @@ func (c *c10) Enabled() []seqx.Event {
 	for p := 0; p < 2; p++ {
 		s := c.sess[p]
 		if s == nil {
+			if p == 0 && c.taken {
+				continue // A's association was re-keyed to T1 by the takeover: A would have to associate anew first
+			}
 			ev = append(ev, nm(seqx.Ev("Est", int64(p)), "Est(%c)", 'A'+p))
 			continue
 		}
@@ -150,6 +154,11 @@ func (c *c10) Enabled() []seqx.Event {
 		if _, ok := s.urr[2]; ok && p == 0 {
 			ev = append(ev, nm(seqx.Ev("Update", int64(p), 2, 0), "UpdateURR(s%d,2 -> VOLUM+DURAT+MNOP; no report)", s.k))
 			ev = append(ev, nm(seqx.Ev("Update", int64(p), 2, 1), "UpdateURR(s%d,2 -> VOLUM+DURAT+MNOP; with report)", s.k))
+		}
+		if p == 0 && s.peer == 0 {
+			// the session is taken over by another SMF of the set (fresh node id T1): from then on its reports and
+			// its requests belong to that node
+			ev = append(ev, nm(seqx.Ev("Takeover", int64(p)), "Takeover(s%d by node T1)", s.k))
 		}
 		if _, ok := s.urr[1]; ok && p == 0 {
 			// an update that names neither Measurement Method nor Measurement Information: the URR keeps its profile
@@ -475,13 +484,13 @@ func (c *c10) Apply(e seqx.Event) seqx.StepResult {
 				op = smf.RuleOp{Verb: 'U', Kind: 'U', ID: u, Period: uint32(P1 / time.Second), MInfo: -1}
 			}
 		}
-		o = c.W.Send(p, smf.Mod(c.seq(), s.up, "", op))
+		o = c.W.Send(s.peer, smf.Mod(c.seq(), s.up, "", op))
 		c.W.K.UpdateURRReports = false
 		if j.Crashed(c.W.World, o) {
 			break
 		}
-		if len(o.Out[p]) != 1 || o.Out[p][0].Type != smf.MModRsp || o.Out[p][0].Cause() != smf.CauseAccepted {
-			j.Fail("mod-not-accepted", "%s not accepted: %v", e, o.Out[p])
+		if len(o.Out[s.peer]) != 1 || o.Out[s.peer][0].Type != smf.MModRsp || o.Out[s.peer][0].Cause() != smf.CauseAccepted {
+			j.Fail("mod-not-accepted", "%s not accepted: %v", e, o.Out[s.peer])
 			break
 		}
 		if e.Op == "Update" && e.A[2] != 2 {
@@ -496,26 +505,40 @@ func (c *c10) Apply(e seqx.Event) seqx.StepResult {
 		if len(ws) != wantN {
 			j.Fail("measurement-count:"+e.Op, "%s: the data plane produced %d reports for known URRs, want %d", e, len(ws), wantN)
 		}
-		c.judge(j, strings.ToLower(e.Op), o, ws, smf.MModRsp, p)
+		c.judge(j, strings.ToLower(e.Op), o, ws, smf.MModRsp, s.peer)
 		if e.Op == "Remove" {
 			delete(s.urr, u)
 		}
-	case "Del":
+	case "Takeover":
 		p := int(e.A[0])
 		s := c.sess[p]
-		o = c.W.Send(p, smf.Del(c.seq(), s.up))
+		o = c.W.Send(s.peer, smf.Mod(c.seq(), s.up, c.W.PeerIP(3)))
 		if j.Crashed(c.W.World, o) {
 			break
 		}
-		if len(o.Out[p]) != 1 || o.Out[p][0].Type != smf.MDelRsp || o.Out[p][0].Cause() != smf.CauseAccepted {
-			j.Fail("del-not-accepted", "Deletion not accepted: %v", o.Out[p])
+		if len(o.Out[s.peer]) != 1 || o.Out[s.peer][0].Type != smf.MModRsp || o.Out[s.peer][0].Cause() != smf.CauseAccepted {
+			j.Fail("mod-not-accepted", "%s not accepted: %v", e, o.Out[s.peer])
+			break
+		}
+		s.peer = 3
+		c.taken = true
+		j.Tag("takeover")
+	case "Del":
+		p := int(e.A[0])
+		s := c.sess[p]
+		o = c.W.Send(s.peer, smf.Del(c.seq(), s.up))
+		if j.Crashed(c.W.World, o) {
+			break
+		}
+		if len(o.Out[s.peer]) != 1 || o.Out[s.peer][0].Type != smf.MDelRsp || o.Out[s.peer][0].Cause() != smf.CauseAccepted {
+			j.Fail("del-not-accepted", "Deletion not accepted: %v", o.Out[s.peer])
 			break
 		}
 		ws := c.handedFor(1 << 11)
 		if len(ws) != len(s.urr) {
 			j.Fail("measurement-count:Del", "deletion produced %d final reports, the session has %d URRs", len(ws), len(s.urr))
 		}
-		c.judge(j, "deletion", o, ws, smf.MDelRsp, p)
+		c.judge(j, "deletion", o, ws, smf.MDelRsp, s.peer)
 		c.ended = append(c.ended, s.up)
 		c.sess[p] = nil
 	case "Est":
@@ -540,7 +563,7 @@ func RunC10(tier string) {
 	spec := c10Spec(tier, "usage-reports")
 	st := seqx.Explore(run, spec, tier, smp)
 	seqx.Merge(run, "usage-reports", st, &total)
-	seqx.Finish(run, total, smp, fmt.Sprintf("two sessions on two peers with equal CP SEIDs; URRs with method VOLUM / DURAT / VOLUM+DURAT / EVENT x MNOP; ticks, Query / Remove / Update URR (update answered with and without a report), deletion, re-establishment to depth %d (completed %d); in every reached state a batch sweep: all 1- and 2-report arrangements over {live, unknown, ended} sessions x {known, unknown} URRs, 3-report batches, the 17 single-cause triggers (+REEMR), 7 boundary counter sets", spec.MaxDepth, st.DepthDone))
+	seqx.Finish(run, total, smp, fmt.Sprintf("two sessions on two peers with equal CP SEIDs; URRs with method VOLUM / DURAT / VOLUM+DURAT / EVENT x MNOP; ticks, Query / Remove / Update URR (update answered with and without a report), takeover of a session by a fresh node id, deletion, re-establishment to depth %d (completed %d); in every reached state a batch sweep: all 1- and 2-report arrangements over {live, unknown, ended} sessions x {known, unknown} URRs, 3-report batches, the 17 single-cause triggers (+REEMR), 7 boundary counter sets", spec.MaxDepth, st.DepthDone))
 	run.Assumption("the simulated kernel stands for gtp5g: reports enter as genuine netlink REPORT notifications handed to the real buffnetlink.Server, as answers to DEL_URR / ADD_URR(replace) / GET_REPORT / GET_MULTI_REPORTS, and through injected ticks")
 	run.Assumption("duration values are not judged (gtp5g does not measure them), only the IE's presence; an empty Session Report Request emitted when every report of a batch was dropped is not judged")
 	run.Finish()
